@@ -183,7 +183,11 @@ impl LuaTypeDecl {
         }
 
         let enum_member_owner = LuaMemberOwner::Type(self.get_id());
-        let enum_members = db.get_member_index().get_members(&enum_member_owner)?;
+        // sorted (declaration order): `get_members` iterates a hash map, which made the order of
+        // the union, and with it the rendered enum type, differ from run to run
+        let enum_members = db
+            .get_member_index()
+            .get_sorted_members(&enum_member_owner)?;
 
         let mut union_types = Vec::new();
         if self.is_enum_key() {
